@@ -15,7 +15,9 @@ import LenaModel.Model.C09Spec
      {"k":"meanover","inner":{"k":"sum","total0":i}|{"k":"count",..}|{"k":"storeitems"},"poe":b},
      {"k":"countrun","name":s,"count0":i} (extra OP {"o":"run","vs":[VALUE]} -> {"run":[OUT]}),
      vec: "construct": null|"variadic"|k, inner also {"k":"meand","poe":b} | {"k":"dsum"} (data [[m,e],..]);
-     groupby VALUE "k": null = the key cannot be rendered
+     groupby VALUE "k": null = the key cannot be rendered;
+     {"k":"vmcover","corrected":b,"poe":b,"sq0":i,"sm0":i} (VarianceMeanCount(Sum(sq0), Sum(sm0))),
+     {"k":"tsum","total0":[i,b]} (the typed Sum: DATA [value, is-float]; the reply carries "typed": true)
   OBS: {"f":null|ERR} | {"c":[OUT,...]} | {"ce":ERR} | "r" -/
 open Lean Lena.Drv Lena.C09
 
@@ -93,6 +95,16 @@ def histNdJ (h : Lena.C06.Hist Int Int) : Json := Json.mkObj [("bins", narrJ h.b
 
 def dy? (j : Json) : Option Dy := (pair? j).map (fun p => (⟨p.1, p.2⟩ : Dy))
 def dyList? (j : Json) : Option (List Dy) := (arr? j).bind (fun a => a.toList.mapM dy?)
+
+def num? (j : Json) : Option Num :=
+  match arr? j with
+  | some a => match a.toList with
+    | [v, f] => match int? v, bool? f with
+      | some v, some f => some ⟨v, f⟩
+      | _, _ => none
+    | _ => none
+  | none => none
+def numJ (x : Num) : Json := Json.arr #[ofInt x.val, Json.bool x.isFloat]
 
 def builtJ {ο : Type} (enc : ο → Json) : Built ο → Json
   | .made args => Json.mkObj [("made", ofList (ofOpt enc) args)]
@@ -223,7 +235,14 @@ def handleSpec (j : Json) : Json :=
       let dev : Json := if n == 0 then Json.null else ratJ (sqDev ((isum xs : Rat) / (n : Rat)) xs)
       Json.mkObj [("ctxAfter", ctxJ (ctxAfter [] vs)), ("dataSum", ofInt (dataSum vs)), ("dataSumSq", ofInt (dataSumSq vs)),
         ("isum", ofInt (isum xs)), ("isumSq", ofInt (isumSq xs)), ("sqDev", dev),
-        ("bareCtx", ctxJ (ctxAfter [("x", some 1)] (bare vs))), ("bareSum", ofInt (dataSum (bare vs)))]
+        ("bareCtx", ctxJ (ctxAfter [("x", some 1)] (bare vs))), ("bareSum", ofInt (dataSum (bare vs))),
+        ("bareSqSum", ofInt (dataSum (bareSq vs))), ("bareSqCtx", ctxJ (ctxAfter [("x", some 1)] (bareSq vs)))]
+  | some "tstats" =>
+    match (arr? (getD j "vs")).bind (fun a => a.toList.mapM (item? num?)) with
+    | some vs =>
+      Json.mkObj [("numSum", ofInt (numSum vs)), ("anyFloat", Json.bool (anyFloat vs)),
+        ("erased", ofList (itemJ ofInt) (eraseNum vs))]
+    | none => err "bad tstats"
   | some "keys" =>
     match intList? (getD j "ks"), int? (getD j "probe") with
     | some ks, some probe =>
@@ -294,6 +313,11 @@ def handle (j : Json) : Json :=
     match int? (getD el "total0") with
     | some t => runM (sumM t) (item? int?) (itemJ ofInt) ops
     | _ => err "bad sum args"
+  | some "tsum" =>
+    -- the typed Sum: numbers are [value, is it a float?]
+    match num? (getD el "total0") with
+    | some t => runM (tsumM t) (item? num?) (itemJ numJ) ops (fun _ => [("typed", Json.bool true)])
+    | _ => err "bad tsum args"
   | some "dsum" =>
     match pair? (getD el "total0") with
     | some (c, e) =>
@@ -309,6 +333,11 @@ def handle (j : Json) : Json :=
     match bool? (getD el "corrected"), bool? (getD el "poe") with
     | some a, some b => runM (vmcM ⟨a, b⟩) (item? int?) (itemJ vmcJ) ops
     | _, _ => err "bad vmc args"
+  | some "vmcover" =>
+    -- `VarianceMeanCount(Sum(sq0), Sum(sm0), corrected, pass_on_empty)`
+    match bool? (getD el "corrected"), bool? (getD el "poe"), int? (getD el "sq0"), int? (getD el "sm0") with
+    | some a, some b, some sq0, some sm0 => runM (vmcOverM (sumM sq0) (sumM sm0) ⟨a, b⟩) (item? int?) (itemJ vmcJ) ops
+    | _, _, _, _ => err "bad vmcover args"
   | some "meand" =>
     match bool? (getD el "poe") with
     | some b => runM (meanDM b) (item? (fun j => (pair? j).map (fun p => (⟨p.1, p.2⟩ : Dy)))) (itemJ ratJ) ops
